@@ -126,6 +126,16 @@ CHECKS = {
          "Trusted: Lean kernel + standard axioms; clang's sanitizers as the observer of the machine code; CPython/numpy are not "
          "instrumented. Memory safety of the machine code is observed on the enumerated inputs, not proved.",
          "Lean 4 proof (model-level safety) + sanitizer execution with fault-verdict correspondence", "§6 C12"),
+ "C20": ("Partial by nature: a Lean 4 interleaving theorem over a shared-state access model - threads whose steps are reads of never-written "
+         "locations or memo steps (a value that depends on immutable data only) keep an invariant under every interleaving and "
+         "observe exactly what they observe alone; a proved witness schedule shows that rebuilding shared state in place (reset, then "
+         "refill) breaks this, and that publishing an equal value with one atomic write does not. The model's classification of "
+         "every API operation (writes nothing but memo keys; deriving a handle leaves the parent's shared state equal) is tied to the "
+         "code by deep snapshots of the shared metadata before/after each operation run alone; thread pools of 2..16 with a minimal "
+         "switch interval search for a disagreeing schedule on the real code.",
+         "Trusted: Lean kernel + standard axioms; the GIL makes single dict/list operations atomic (assumed); completeness of the "
+         "measured write sets. Bytecode-level atomicity and pandas internals are outside the model.",
+         "Lean 4 proof (interleaving invariant) + write-set correspondence + schedule search", "§6 C20"),
 }
 
 def main():
